@@ -361,6 +361,9 @@ func (p *Pkg) ZeroRefCandidates() []Candidate {
 				case token.TYPE:
 					for _, s := range d.Specs {
 						ts := s.(*ast.TypeSpec)
+						if ts.Assign.IsValid() {
+							continue // an alias is not a named type
+						}
 						consider(ts.Name, "type")
 					}
 				case token.CONST:
